@@ -145,6 +145,11 @@ def judge(doc, nd=3):
     except Exception: return None
     v = pico.check_refs(out)
     if v: return ('unique ids, every paint reference resolves to a gradient in defs, every gradient in defs is referenced', 'no violations', {'violations': v[:6], 'output': out[:3000]})
+    # the same document once more in this process: what an earlier conversion did must not leak into the references
+    try: out2 = SVG.fromstring(doc).topicosvg(ndigits=nd).tostring()
+    except Exception as e: return ('a second conversion of the same document in one process behaves like the first', 'normal return', {'raised': repr(e)[:300]})
+    v = pico.check_refs(out2)
+    if v: return ('unique ids, every paint reference resolves to a gradient in defs, every gradient in defs is referenced (second conversion in the same process)', 'no violations', {'violations': v[:6], 'output': out2[:3000]})
     return None
 
 def search(ctx, broken, disagreements):
